@@ -376,9 +376,9 @@ class CounterToken(Token, FileSystemEventHandler):
                 )
 
                 if delta > 0 and self.available > 0:
-                    with self.dependents as dependents:
-                        for dependency in dependents:
-                            dependency.check()
+                    # We are in the file watcher thread: the dependencies are
+                    # checked within the scheduler loop (as for a release)
+                    self.aio_notify()
 
             # A modified dependency not in cache
             elif path.name.endswith(".token") and path.name not in self.cache:
